@@ -9,7 +9,8 @@ from rules import common
 
 LEVEL = "proof"
 FN = "edgegraph.traversal.helpers.neighbors"
-KINDS = {"UnDirectedEdge": "U", "SymUnd": "U", "DirectedEdge": "D", "SymDir": "D", "SymTwo": "X"}
+# a class deriving from BOTH edge classes is an undirected edge ("every undirected edge" contributes, whatever else it is)
+KINDS = {"UnDirectedEdge": "U", "SymUnd": "U", "DirectedEdge": "D", "SymDir": "D", "SymTwo": "X", "SymBothDU": "U", "SymBothUD": "U"}
 POS = ("v1", "v2", "both")
 DIRS = ("FORWARD", "BACKWARD", "ANY", "UNDEFINED")
 UHS = ("NONNEIGHBOR", "NEIGHBOR", "ERROR")
@@ -163,8 +164,8 @@ def run(ctx):
                sample={"link": cls, "vert_is": pos, "direction": d, "unknown": uh, "filter": filt, "derived": got, "specified": sorted(exp) if isinstance(exp, set) else exp})
         if not ok:
             badrows.add((cls, pos, d, uh, filt))
-            res.violation("TABLE", FN, f"kind={kind},dir={d},unknown={uh},filter={filt}",
-                          f"neighbors() contributes {got!r} for a {kind}-kind link where the statement requires {exp!r}",
+            res.violation("TABLE", FN, f"kind={kind},dir={d},unknown={uh},filter={filt}" + (",class-derives-from-both-edge-classes" if cls.startswith("SymBoth") else ""),
+                          f"neighbors() contributes {got!r} for a {kind}-kind link{' (of a class deriving from DirectedEdge and UnDirectedEdge)' if cls.startswith('SymBoth') else ''} where the statement requires {exp!r}",
                           detail=f"link class {cls}, queried vertex is {pos}; derived {out!r}; filter calls {cb.calls if cb else None}",
                           replay=replay_snippet([(cls, pos)], d, uh, filt))
     # ---- the same table on distinct vertices that compare equal (a user vertex class with value equality): the opposite end is the
